@@ -75,7 +75,11 @@ async def do_op(client: Any, op: dict, args: Optional[dict] = None) -> Any:
 
 async def do_pyop(client: Any, op: dict) -> Any:
     """Run one PyWrapper operation; the raw Python result is returned untouched."""
-    py = PyWrapper(client)
+    # one wrapper per client for the client's whole life (a long-lived application object), not one per call
+    py = getattr(client, "_verif_pywrapper", None)
+    if py is None:
+        py = PyWrapper(client)
+        client._verif_pywrapper = py
     k = op["op"]
     s = S.oid_str
     if k == "get":
